@@ -21,6 +21,11 @@ CHECKS = {
    "Generated-input search for panics, aborts, hangs, error locations outside the text and unproducible 'near' excerpts; invalid-by-construction definitions must be rejected. Every character prefix of the generated valid statements is tried. The search runs in a supervised child so that stack overflows and hangs are observed and re-judged in isolation. Exploration, not proof.",
    "Documented nesting bound of the check: depth 200 on an 8 MiB stack. A time-out is reported as inconclusive (exit 2) unless it reproduces twice in isolation.",
    "DESIGN.md §3 C14"),
+ "C17": (True,
+   "property-based testing: round trip (rows -> real OutputPrinter -> independent decoder -> rows) over generated ResultRows in text/json/csv",
+   "Generated-input search: arbitrary result rows of every type are printed through the real OutputPrinter into a capturing Printer and decoded again by the harness's own JSON reader / field splitter; records must be one per row, in order, JSON values exact (INT digits, REAL bit-exact), CSV header once and one field per column, text `name: value` pairs in column order. Exploration, not proof.",
+   "Field-level checks for text/CSV only for delimiter-free values (as the property states); TZ=UTC; the decoder shares no code with serde_json.",
+   "DESIGN.md §3 C17"),
 }
 
 NOT_YET = {
